@@ -109,13 +109,18 @@ func writeEvidence(c *ctx, cov map[string]interface{}, assumptions []string) {
 	}
 }
 
-func both(c *ctx, s, g map[string]interface{}) {
+func both(c *ctx, s, g map[string]interface{}, more ...map[string]interface{}) {
 	parts := map[string]map[string]interface{}{}
 	if s != nil {
 		parts["S"] = s
 	}
 	if g != nil {
 		parts["G"] = g
+	}
+	for _, m := range more {
+		if m != nil {
+			parts["Gm"] = m // Engine G, modifier-mode corpus
+		}
 	}
 	writeEvidence(c, mergeCov(parts), append(append([]string{}, assumeS...), assumeG...))
 }
@@ -172,6 +177,35 @@ func genPart(c *ctx, stream string, nFlows, nPars int, o prog.GenOpts, orders in
 	return cov
 }
 
+// modPart runs an Engine G corpus generated in modifier mode (the flows that
+// mode supports: Params, Results, Concurrency and plain Tasks) for the check's
+// property.
+func modPart(c *ctx, stream string, nFlows int, tags string, per int, nontrivial string) map[string]interface{} {
+	if violationsSoFar(c) || (c.RS != nil && c.RS.Engine != "G") {
+		return nil
+	}
+	mo := prog.DefaultOpts()
+	mo.PredPct, mo.FallbackPct, mo.InstrPct, mo.WrapPct, mo.GenericPct = 0, 0, 0, 0, 0
+	mo.NoInvoke = true
+	mo.Spellings = []int{prog.SpLit, prog.SpLit, prog.SpTop, prog.SpMethod, prog.SpVar}
+	progs := genPrograms(c.Seed, stream, nFlows, 0, mo, 1)
+	for _, p := range progs {
+		p.InMethod = false
+	}
+	co := prepare(c, progs, "modifier", false)
+	if n := len(co.Dropped); n > 0 {
+		first := ""
+		for name, why := range co.Dropped {
+			if first == "" || name < first[:len(name)] {
+				first = name + ": " + why
+			}
+		}
+		c.R.Inconclusive(fmt.Sprintf("%d of %d programs generated in modifier mode could not be executed (see C20), e.g. %s", n, len(progs), firstLines(first, 3)))
+	}
+	a := runGen(c, co, tags, per, false)
+	return a.coverage("the same engine over flows generated with -genmode modifier (Params, Results, Concurrency and plain Tasks only); non-trivial: " + nontrivial)
+}
+
 func init() {
 	checks["C01"] = func(c *ctx) {
 		s := schedC01(c)
@@ -201,8 +235,9 @@ func init() {
 		o.PredPct, o.FallbackPct = 35, 30
 		o.ParMatrix = true
 		g := genPart(c, "C04", c.pick(60, 1500), c.pick(60, 1500), o, 1, "panic,fault,one,nest", c.pick(8, 14), false,
-			"some user function actually panicked (string, error, struct, int, nil-map write, index out of range) - task, predicate, parallel task, slice/map element function or End hook")
-		both(c, nil, g)
+			"some user function actually panicked (string, error, struct, int, nil-map write, index out of range, non-comparable values, a *cff.PanicError) - task, predicate, parallel task, slice/map element function or End hook")
+		m := modPart(c, "C04m", c.pick(30, 400), "panic,fault", c.pick(6, 12), "some task actually panicked")
+		both(c, nil, g, m)
 	}
 	checks["C05"] = func(c *ctx) {
 		s := schedC05(c)
@@ -226,7 +261,8 @@ func init() {
 		o.ParMatrix = true
 		g := genPart(c, "C07", c.pick(100, 1500), c.pick(40, 1200), o, 1, "fault,panic,one", c.pick(8, 14), false,
 			"fail-fast directive in which some user function actually failed (error or panic): returned error identity, untouched Results sentinels, nothing downstream invoked")
-		both(c, s, g)
+		m := modPart(c, "C07m", c.pick(30, 400), "fault,one", c.pick(6, 12), "some task actually failed")
+		both(c, s, g, m)
 	}
 	checks["C08"] = func(c *ctx) {
 		s := schedC08(c)
